@@ -984,6 +984,13 @@ pub fn run(ctx: Ctx, mode: Mode) -> i32 {
         let mut c = case.clone();
         c["mode"] = json!(mode.name());
         c["force"] = json!(true);
+        if c.get("step_budget").is_none() {
+            // the same rule as in the exploration (quick tier's figure): the full budget only where
+            // the search space is finite, otherwise the implementation's memory use explodes
+            let g = replay_grammar(&case);
+            let full = analyse(&g).all_productive() && build::<u32>(&g).map(|b| b.st.conflicts().is_none()).unwrap_or(false);
+            c["step_budget"] = json!(if full { 20_000u64 } else { 400 });
+        }
         let r = vcore::pool::confirm_alone("rec", &[], &c.to_string(), Duration::from_secs(30), 1024);
         match r {
             WOut::Ok(l) => {
@@ -1128,10 +1135,9 @@ pub fn run(ctx: Ctx, mode: Mode) -> i32 {
                             {
                                 let mut c = json!({"grammar": gs[gi].to_json(), "input": x["input"], "costs": x["costs"], "avoid": gs[gi].avoid_insert, "extra": x["extra"]});
                                 // the deadline pass is replayed under the same budgets
-                                for k in ["budget_ms", "step_budget"] {
-                                    if base_cases[gi].get("budget_ms").is_some() {
-                                        c[k] = base_cases[gi][k].clone();
-                                    }
+                                c["step_budget"] = base_cases[gi]["step_budget"].clone();
+                                if base_cases[gi].get("budget_ms").is_some() {
+                                    c["budget_ms"] = base_cases[gi]["budget_ms"].clone();
                                 }
                                 c
                             },
